@@ -199,7 +199,30 @@ func deserializePartialMerkleTree(
 	}, nil
 }
 
+// checkMerkleBlockHashCount refuses a declared hash count that the remaining
+// input cannot hold. btcd reserves memory for the declared number of hashes
+// (up to its cap of about 400000, i.e. 16 MB) before it reads any of them.
+func checkMerkleBlockHashCount(b []byte) error {
+	const countOffset = 80 + 4 // block header, transaction count
+	if len(b) <= countOffset {
+		return nil // too short anyway: left to the decoder
+	}
+	r := bytes.NewReader(b[countOffset:])
+	count, err := wire.ReadVarInt(r, wire.ProtocolVersion)
+	if err != nil {
+		return nil // malformed count: left to the decoder
+	}
+	if count > uint64(r.Len())/chainhash.HashSize {
+		return errors.New("merkle block hash count exceeds the available data")
+	}
+	return nil
+}
+
 func deserializeMerkleBlock(buf *bytes.Buffer) (*MerkleBlock, error) {
+	if err := checkMerkleBlockHashCount(buf.Bytes()); err != nil {
+		return nil, err
+	}
+
 	mb := wire.MsgMerkleBlock{}
 	err := mb.BtcDecode(buf, wire.ProtocolVersion, wire.LatestEncoding)
 	if err != nil {
